@@ -22,7 +22,8 @@ def gen(rng: random.Random, tier: str):
             u = 999 if kind == "unknown" else rng.choice(users + ([None] if kind == "query_hist" else []))
             supplied = rng.sample(pool, rng.randint(0, len(pool))) if rng.random() < 0.4 else None
             queries.append({"kind": kind, "user": u, "hist": hist, "supplied": supplied, "via_op": rng.random() < 0.5})
-        yield {"rows": rows, "base": base, "cfg_n": rng.choice([-1, 1, 3, 10, None]), "run_n": rng.choice([None, None, -1, 0, 1, 2, 5, 50]), "queries": queries}
+        yield {"rows": rows, "base": base, "cfg_n": rng.choice([-1, 1, 3, 10, None]), "run_n": rng.choice([None, None, -1, 0, 1, 2, 5, 50]), "queries": queries,
+               "predicts": rng.random() < 0.4}
 
 def run(case: dict, lean: Lean) -> Outcome:
     import pandas as pd
@@ -69,6 +70,32 @@ def run(case: dict, lean: Lean) -> Outcome:
                 key = "candidate selector raises KeyError for a history item unknown to training"
             else:
                 other_fail = True
+    # rating-prediction pipelines: the predictor merges the scorer with the fallback, and asking for several nodes in ONE run
+    # (in either order) gives each node the value it has when asked for alone
+    if case.get("predicts"):
+        dfr = pd.DataFrame([[u, i, float((u * 7 + i * 3) % 5 + 1)] for u, i in case["rows"]], columns=["user_id", "item_id", "rating"])
+        dsr = from_interactions_df(dfr)
+        pp = topn_pipeline(TableScorer(base), predicts_ratings=True, n=cfg_n if cfg_n is not None else -1); pp.train(dsr)
+        def canon(il): return [[int(i), None if (s is None or math.isnan(s)) else round(float(s), 6)] for i, s in zip(il.ids(), il.scores())] if len(il) else []
+        classes.add("rating-prediction pipeline")
+        for qd in case["queries"][:2]:
+            u = qd["user"] if qd["user"] is not None else users[0]
+            cand = ItemList(item_ids=np.array(qd["supplied"] if qd["supplied"] else V + [5000], dtype="i8"))
+            try:
+                alone = {nname: canon(pp.run(nname, query=u, items=cand, n=run_n)) for nname in ("scorer", "fallback-predictor", "rating-predictor", "recommender")}
+                for order in (("rating-predictor", "recommender"), ("recommender", "rating-predictor"), ("scorer", "rating-predictor", "recommender")):
+                    got = pp.run(order, query=u, items=cand, n=run_n)
+                    for nname, il in zip(order, got):
+                        if canon(il) != alone[nname]:
+                            spec = False; corr = False; other_fail = True
+                            detail.append({"joint_run": list(order), "node": nname, "joint": canon(il)[:6], "alone": alone[nname][:6], "user": u})
+                prim = dict(map(tuple, alone["scorer"])); back = dict(map(tuple, alone["fallback-predictor"]))
+                want = [[i, prim[i] if prim[i] is not None else back[i]] for i, _ in alone["scorer"]]
+                if alone["rating-predictor"] != want:
+                    spec = False; corr = False; other_fail = True
+                    detail.append({"predictor": alone["rating-predictor"][:6], "want_primary_else_fallback": want[:6], "user": u})
+            except Exception as e:
+                spec = False; corr = False; other_fail = True; detail.append({"predict_pipeline_raised": type(e).__name__ + ": " + str(e)[:80]})
     return Outcome(corr, spec, tuple(sorted(classes)), {"queries": detail}, None if other_fail else key)
 
 def shrink(case: dict):
